@@ -121,9 +121,9 @@ def run(ctx):
                 if w in UNARY:
                     progs.append("[%s] elem %s" % (", ".join(vs), w))
                 else:
-                    other = rng.choice(POOL[rng.choice([t, t, rng.choice(types)])])
-                    progs.append("[%s] elem %s %s" % (", ".join(vs), other, w))
-                    progs.append("%s [%s] elem %s" % (other, ", ".join(vs), w))
+                    for other in (rng.choice(POOL[t]), rng.choice(POOL[rng.choice(types)])):      # the same type always, any type too
+                        progs.append("[%s] elem %s %s" % (", ".join(vs), other, w))
+                        progs.append("%s [%s] elem %s" % (other, ", ".join(vs), w))
     # underflow behaviour at depths 0..2 for every word
     for w in UNARY + BINARY + TERNARY:
         for d in range(3):
